@@ -39,8 +39,9 @@ VARIABLES cfg,      \* [pats, ci, stream, cap, min]
           last,     \* history: the most recent emission
           eofseen,  \* history: some read returned 0
           faults,   \* history: failures injected so far
-          orc       \* the in-memory iterator's match sequence for cfg (computed once per run)
-vars == <<cfg, pc, buf, rpos, readany, sid, apos, bpos, rep, outpos, nm, last, eofseen, faults, orc>>
+          orc,      \* the in-memory iterator's match sequence for cfg (computed once per run)
+          ftype     \* kind of the failure that made pc = "failed": "none" | "read" | "write"
+vars == <<cfg, pc, buf, rpos, readany, sid, apos, bpos, rep, outpos, nm, last, eofseen, faults, orc, ftype>>
 
 SeqsUpTo(S, n) == UNION {[1..k -> S] : k \in 0..n}
 NonEmptySeqs(S, n) == UNION {[1..k -> S] : k \in 1..n}
@@ -57,7 +58,7 @@ Init ==
     /\ pc = "new" /\ buf = <<>> /\ rpos = 0 /\ readany = FALSE
     /\ sid = Root /\ apos = 0 /\ bpos = 0 /\ rep = 0
     /\ outpos = 0 /\ nm = 0 /\ last = NoEmit /\ eofseen = FALSE /\ faults = 0
-    /\ orc = <<>>
+    /\ orc = <<>> /\ ftype = "none"
 
 New ==
     /\ pc = "new"
@@ -65,7 +66,7 @@ New ==
          /\ cfg' = [cfg EXCEPT !.stream = stream, !.cap = cfg.min + x]
          /\ orc' = IterOracle(cfg.pats, "std", stream, 0, Len(stream), cfg.ci, FALSE)
     /\ pc' = "top"
-    /\ UNCHANGED <<buf, rpos, readany, sid, apos, bpos, rep, outpos, nm, last, eofseen, faults>>
+    /\ UNCHANGED <<buf, rpos, readany, sid, apos, bpos, rep, outpos, nm, last, eofseen, faults, ftype>>
 
 Emit(kind, a, b, m) ==       \* the chunk buf[a..b) is handed to the caller
     /\ last' = [kind |-> kind, bytes |-> SubSeq(buf, a + 1, b), mat |-> m]
@@ -85,8 +86,8 @@ MatchChunk ==
        THEN /\ Emit("n", rep, bms, None) /\ UNCHANGED sid
        ELSE /\ sid' = Root /\ Emit("m", bpos - mlen, bpos, m)
     /\ \E wf \in MaybeWriteFault :
-         IF wf THEN pc' = "failed" /\ faults' = faults + 1
-         ELSE UNCHANGED <<pc, faults>>
+         IF wf THEN pc' = "failed" /\ faults' = faults + 1 /\ ftype' = "write"
+         ELSE UNCHANGED <<pc, faults, ftype>>
     /\ UNCHANGED <<orc, cfg, buf, rpos, readany, apos, bpos, eofseen>>
 
 Exhausted == pc = "top" /\ ~IsMatchState(P, K, sid) /\ bpos >= Len(buf)
@@ -97,8 +98,8 @@ PreRoll ==
     /\ rep < SatSub(Len(buf), cfg.min)
     /\ Emit("n", rep, SatSub(Len(buf), cfg.min), None)
     /\ \E wf \in MaybeWriteFault :
-         IF wf THEN pc' = "failed" /\ faults' = faults + 1
-         ELSE UNCHANGED <<pc, faults>>
+         IF wf THEN pc' = "failed" /\ faults' = faults + 1 /\ ftype' = "write"
+         ELSE UNCHANGED <<pc, faults, ftype>>
     /\ UNCHANGED <<orc, cfg, buf, rpos, readany, sid, apos, bpos, eofseen>>
 
 RollFill ==
@@ -110,7 +111,7 @@ RollFill ==
             /\ buf' = SubSeq(buf, Len(buf) - cfg.min + 1, Len(buf))      \* Buffer::roll
        ELSE UNCHANGED <<bpos, rep, buf>>
     /\ pc' = "fill" /\ readany' = FALSE
-    /\ UNCHANGED <<orc, cfg, rpos, sid, apos, outpos, nm, last, eofseen, faults>>
+    /\ UNCHANGED <<orc, cfg, rpos, sid, apos, outpos, nm, last, eofseen, faults, ftype>>
 
 Remaining == Len(S) - rpos
 Free == cfg.cap - Len(buf)
@@ -119,7 +120,7 @@ MinOf2(a, b) == IF a <= b THEN a ELSE b
 Read ==
     /\ pc = "fill"
     /\ \/ \* the reader fails (C18): Buffer::fill returns the error, next() yields it
-          /\ faults < MaxFaults /\ faults' = faults + 1 /\ pc' = "failed"
+          /\ faults < MaxFaults /\ faults' = faults + 1 /\ pc' = "failed" /\ ftype' = "read"
           /\ UNCHANGED <<buf, rpos, readany, outpos, nm, last, eofseen, rep>>
        \/ \* the reader delivers n >= 1 bytes
           /\ \E n \in 1..MinOf2(Free, Remaining) :
@@ -127,12 +128,12 @@ Read ==
                /\ rpos' = rpos + n
                /\ readany' = TRUE
                /\ pc' = IF Len(buf) + n >= cfg.min THEN "top" ELSE "fill"
-          /\ UNCHANGED <<outpos, nm, last, eofseen, faults, rep>>
+          /\ UNCHANGED <<outpos, nm, last, eofseen, faults, rep, ftype>>
        \/ \* read returns 0: end of stream (or no free space: the code cannot tell)
           /\ (Remaining = 0 \/ Free = 0)
           /\ eofseen' = TRUE
           /\ pc' = IF readany THEN "top" ELSE "eof"
-          /\ UNCHANGED <<buf, rpos, readany, faults, outpos, nm, last, rep>>
+          /\ UNCHANGED <<buf, rpos, readany, faults, outpos, nm, last, rep, ftype>>
     /\ UNCHANGED <<orc, cfg, sid, apos, bpos>>
 
 (* Buffer::fill returned Ok(false): get_eof_non_match_chunk, then None *)
@@ -141,9 +142,9 @@ Eof ==
     /\ IF rep < Len(buf)
        THEN /\ Emit("n", rep, Len(buf), None)
             /\ \E wf \in MaybeWriteFault :
-                 IF wf THEN pc' = "failed" /\ faults' = faults + 1
-                 ELSE pc' = "top" /\ UNCHANGED faults
-       ELSE pc' = "done" /\ UNCHANGED <<outpos, nm, last, rep, faults>>
+                 IF wf THEN pc' = "failed" /\ faults' = faults + 1 /\ ftype' = "write"
+                 ELSE pc' = "top" /\ UNCHANGED <<faults, ftype>>
+       ELSE pc' = "done" /\ UNCHANGED <<outpos, nm, last, rep, faults, ftype>>
     /\ UNCHANGED <<orc, cfg, buf, rpos, readany, sid, apos, bpos, eofseen>>
 
 (* the `for &byte in buf[buffer_pos..]` loop: stop after entering a match state *)
@@ -158,9 +159,17 @@ Scan ==
     /\ pc = "top" /\ ~IsMatchState(P, K, sid) /\ bpos < Len(buf)
     /\ LET r == ScanFrom(sid, bpos) IN
        /\ sid' = r[1] /\ apos' = apos + r[2] /\ bpos' = bpos + r[2]
-    /\ UNCHANGED <<orc, cfg, pc, buf, rpos, readany, rep, outpos, nm, last, eofseen, faults>>
+    /\ UNCHANGED <<orc, cfg, pc, buf, rpos, readany, rep, outpos, nm, last, eofseen, faults, ftype>>
 
-Next == New \/ MatchChunk \/ PreRoll \/ RollFill \/ Read \/ Eof \/ Scan
+(* StreamFindIter yielded Some(Err(e)) for a failed read; nothing stops the caller  *)
+(* from calling next() again.  The failed fill changed nothing but the bytes it had *)
+(* already buffered, so the loop is simply re-entered (a transient failure).        *)
+Repoll ==
+    /\ pc = "failed" /\ ftype = "read"
+    /\ pc' = "top" /\ ftype' = "none"
+    /\ UNCHANGED <<orc, cfg, buf, rpos, readany, sid, apos, bpos, rep, outpos, nm, last, eofseen, faults>>
+
+Next == New \/ MatchChunk \/ PreRoll \/ RollFill \/ Read \/ Eof \/ Scan \/ Repoll
 Spec == Init /\ [][Next]_vars
 
 (* ------------------------------ properties ------------------------------ *)
